@@ -15,6 +15,8 @@ CPU_FLAGS g_usable;
 CPU_FLAGS stub_cpu_flags_to_use(void) { return g_usable; }   /* any set of usable instruction sets */
 void h_dispatch(void) {
     V_NONDET(CPU_FLAGS, flags);
+    V_NONDET(CPU_FLAGS, usable);
+    g_usable = usable;   /* objects of static storage are zero in the verifier: the usable set must be made symbolic explicitly */
     setup_common_rtcd_internal(flags);
 /* one pointer is AVX2-internal: it is called only from AVX2 kernels (cdef_block_avx2.c), so it must be set whenever
  * AVX2 is enabled; every other pointer must be set for every flag word */
@@ -34,4 +36,5 @@ void h_dispatch(void) {
     RTCD_POINTERS(P)
 #undef P
     V_CANARY("rtcd setup returns");
+    __CPROVER_assert(!((flags & usable & HAS_SSSE3) && !(flags & usable & HAS_AVX2)), "CANARY an intermediate instruction-set level (SSSE3 without AVX2) is exercised");
 }
